@@ -337,7 +337,9 @@ def frameNative (s : St) (fi : FrameIn) (o : FrameOr) : FrameRes :=
   * celt_encode_with_ec called with `2 ≤ nbCompressedBytes` and a legal frame size returns a
     value in `0..nbCompressedBytes` (it never grows the packet and reports no coder error), and
     the encoder it finished (`ec_enc_shrink` to the returned size, `ec_enc_done`, no error) holds
-    at most that many bytes; called with fewer than 2 bytes it returns OPUS_BAD_ARG (< 0).
+    at most that many bytes; called with fewer than 2 bytes it returns OPUS_BAD_ARG (< 0); with VBR off
+    (`OPUS_SET_VBR(0)`, bit-rate OPUS_BITRATE_MAX: opus_encoder.c:2176, :2327) it returns exactly
+    `nbCompressedBytes`.
   The harness records these values from the real functions, so the tie monitors the contract on
   every call (`ok=1` in the `O` line). -/
 
@@ -362,7 +364,9 @@ def coderOk (s : St) (fi : FrameIn) (redundancy celtToSilk : Bool) (rb : Int) (o
   decide (redundancy ∧ celtToSilk → (rb ≥ 2 → 0 ≤ o.celtRed1) ∧ (rb < 2 → o.celtRed1 < 0)) &&
   decide (run → (nb ≥ 2 → 0 ≤ o.celtMain ∧ o.celtMain ≤ nb) ∧ (nb < 2 → o.celtMain < 0)) &&
   decide (redundancy ∧ ¬ celtToSilk → s.mode = MODE_HYBRID → (run → o.used2 ≤ o.celtMain) ∧ (¬ run → o.used2 = o.used1)) &&
-  decide (redundancy ∧ ¬ celtToSilk → (rb ≥ 2 → 0 ≤ o.celtRed2) ∧ (rb < 2 → o.celtRed2 < 0))
+  decide (redundancy ∧ ¬ celtToSilk → (rb ≥ 2 → 0 ≤ o.celtRed2) ∧ (rb < 2 → o.celtRed2 < 0)) &&
+  -- with VBR off the main CELT call runs in CBR with OPUS_BITRATE_MAX (:2176, :2327) and returns exactly its budget
+  decide (run → s.useVbr = 0 → nb ≥ 2 → o.celtMain = nb)
 
 /-- Contract of the last reading (:2434), consulted unless the DTX return (:2425) is taken. -/
 def finishOk (s : St) (fi : FrameIn) (o : FrameOr) : Bool :=
